@@ -561,7 +561,10 @@ def run(repo):
             return False
         # a class-level display that nothing in the package ever changes is a constant table, not shared state
         bad = [k for k, v in ci.class_attrs.items() if not immutable(v) and
-               (mutated(k) or not isinstance(v, (ast.List, ast.Dict, ast.Set, ast.Tuple)))]
+               (mutated(k) or not (isinstance(v, (ast.List, ast.Dict, ast.Set, ast.Tuple, ast.ListComp, ast.DictComp,
+                                                  ast.SetComp)) or
+                                   (isinstance(v, ast.Call) and isinstance(v.func, ast.Name) and
+                                    v.func.id in ('dict', 'list', 'set', 'tuple', 'OrderedDict', 'namedtuple'))))]
         res.inst({'class_body': ci.fq, 'attrs': sorted(ci.class_attrs), 'mutable': bad}, not bad)
         for k in bad:
             res.fail(Finding(RULE, ci.fq, 'class attribute ' + k,
